@@ -982,13 +982,43 @@ def l_syevr(A, W, jobz='N', range='A', uplo='L', vl=0.0, vu=0.0, il=1, iu=1, Z=N
         raise NotImplementedError('syevr of order %d' % n)
     return 1
 
+def l_potrf(A, uplo='L', n=-1, ldA=0, offsetA=0):
+    """Cholesky factor in closed form for orders <= 2 (lower storage); ArithmeticError when a pivot is not positive."""
+    if n is None or n < 0: n = A.size[0]
+    if n == 0: return
+    if uplo != 'L' or n > 2: raise NotImplementedError('potrf of order %d / uplo %s' % (n, uplo))
+    if ldA == 0: ldA = builtins.max(1, A.size[0])
+    A._w()
+    a = A.v[offsetA]
+    if not (a > 0.0): raise ArithmeticError(1)
+    l11 = sym.sym_sqrt(a); A.v[offsetA] = l11
+    if n == 2:
+        l21 = A.v[offsetA + 1] / l11; A.v[offsetA + 1] = l21
+        c = A.v[offsetA + 1 + ldA] - l21*l21
+        if not (c > 0.0): raise ArithmeticError(2)
+        A.v[offsetA + 1 + ldA] = sym.sym_sqrt(c)
+
+def l_gesvd(A, S, jobu='N', jobvt='N', U=None, Vt=None, m=-1, n=-1, ldA=0, ldU=0, ldVt=0, offsetA=0,
+            offsetS=0, offsetU=0, offsetVt=0):
+    """1 x 1 only: A = u*s*v with s = |a|, u = sign(a) (u = 1 for a = 0), v = 1; jobu='O' stores u in A."""
+    if m is None or m < 0: m = A.size[0]
+    if n is None or n < 0: n = A.size[1]
+    if m == 0 or n == 0: return
+    if m != 1 or n != 1 or jobvt != 'N' or jobu not in ('N', 'O'): raise NotImplementedError('gesvd configuration')
+    A._w(); S._w()
+    a = A.v[offsetA]
+    if a >= 0.0: S.v[offsetS] = a; u = 1.0
+    else: S.v[offsetS] = -a; u = -1.0
+    if jobu == 'O': A.v[offsetA] = u
+
 def make_lapack():
     m = types.ModuleType('cvxopt.lapack')
     m.syevr = l_syevr
+    m.potrf = l_potrf; m.gesvd = l_gesvd
     def _ni(name):
         def f(*a, **k): raise NotImplementedError('lapack.%s on the shim' % name)
         return f
-    for nm in ('syevd', 'potrf', 'potrs', 'sytrf', 'sytrs', 'trtrs', 'geqrf', 'ormqr', 'gesvd',
+    for nm in ('syevd', 'potrs', 'sytrf', 'sytrs', 'trtrs', 'geqrf', 'ormqr',
                'gesv', 'posv', 'getrf', 'getrs', 'gels'):
         setattr(m, nm, _ni(nm))
     return m
